@@ -1062,6 +1062,12 @@ pub async fn run_scenario(sc: &Scenario, seed: u64, e: &mut Emit<'_>) -> Report 
 
         // ---- the real producer
         let pool_sigs: Vec<_> = pool_now.iter().map(|t| t.signature).collect();
+        // the wallet's slips before the call: bundle_block takes slips out of the wallet only when it builds its staking
+        // transaction, i.e. after every gate has passed
+        let wallet_before = {
+            let wl = w.nodes[p].wallet_lock.read().await;
+            (wl.staking_slips.len(), wl.unspent_slips.len(), wl.get_available_balance())
+        };
         let produced = {
             let n = &mut w.nodes[p];
             guarded_async(n.mempool.bundle_block(&n.blockchain, ts, gt_tx.clone(), &n.cfg, &n.storage)).await
@@ -1099,7 +1105,14 @@ pub async fn run_scenario(sc: &Scenario, seed: u64, e: &mut Emit<'_>) -> Report 
                     }
                 }
                 let drained = !pool_now.is_empty() && w.nodes[p].mempool.transactions.is_empty();
-                if sc.stake > 0 && drained {
+                let wallet_after = {
+                    let wl = w.nodes[p].wallet_lock.read().await;
+                    (wl.staking_slips.len(), wl.unspent_slips.len(), wl.get_available_balance())
+                };
+                // the wallet handed out slips, so Block::create was reached and failed (a tree that keeps the pool in that
+                // case does not show `drained`)
+                let create_failed_after_staking = sc.stake > 0 && wallet_after != wallet_before;
+                if sc.stake > 0 && (drained || create_failed_after_staking) {
                     // Block::create failed; the staking transaction the real wallet built is gone with the pool and the
                     // probe (a copy of the wallet, hash-set order may differ) cannot be trusted to be the same one
                     (e.count)("bundle:none-create-failed-with-staking-on-not-compared");
